@@ -602,6 +602,13 @@ def run(chk):
 			for reverse in (False, True):
 				for na_last in (True, False):
 					chk.case("row_sort", {"rows": rows, "how": how, "reverse": reverse, "na_last": na_last}, "row-sort")
+	# ties between equal but DIFFERENT cells a typed vector may legally hold (bools and int subclasses in an <int> vector, str subclasses in a <str> vector): they keep their order, both directions
+	class _I(int):
+		pass
+	for vals, kind in (([1, True, 1, True, 0, False], "int"), ([True, 1, 0, False, 1, True, None], "int"), ([2, 1, 1.0, 2.0, 1, 2], "float"), ([0, False, 0, False], "int"), ([3, None, 3, True, 1], "int")):
+		for reverse in (False, True):
+			for na_last in (True, False):
+				chk.case("vector_sort", {"values": list(vals), "reverse": reverse, "na_last": na_last, "kind": kind + "-mixed-classes", "name": None}, "vector-sort-directed")
 	for keys in ("two-rows", "three-rows", "row-and-name", "same-row-twice"):
 		for n in (3, 8, 19, 25, 40, 64) if chk.quick() else (3, 8, 19, 25, 40, 64, 200, 1000):
 			for reverse in (False, True):
